@@ -194,7 +194,9 @@ func pReach(x *Exec, fn *ssa.Function, a []Value) Value {
 	case "sat":
 		x.nReach++
 		x.inst.reached[label]++
-		if len(x.inst.Witnesses) < x.inst.MaxWitnesses {
+		// a path that depended on a nondeterministic stub choice the native run cannot be steered into
+		// (which pooled object sync.Pool hands out, the goroutine schedule) is not used for translator validation
+		if len(x.inst.Witnesses) < x.inst.MaxWitnesses && !x.usedNondet {
 			x.inst.Witnesses = append(x.inst.Witnesses, x.makeWitness(vals))
 		}
 	case "unsat":
